@@ -685,7 +685,7 @@ func (c *corrCtx) runRoutes(lines []string, n int) {
 			}
 			return "ok:" + f[0] + cUS + dst
 		})
-		if prefix == "ip route" {
+		if prefix == "ip route" && len(strings.Fields(line)) >= 3 {
 			// routeVRF through alignVRFs: the device routes that survive are those of the VRF of the Netspoc route
 			req := strings.Join([]string{"vrf", "1", line, line}, cUS)
 			c.check("routeVRF", req, true, func() string {
@@ -990,7 +990,7 @@ func (c *corrCtx) runNsx(n int) {
 		}
 		req := strings.Join([]string{"nsxeq", "1", "r1", g + "Netspoc-g1", "Netspoc-g1" + cGS + "10.1.1.1", gb}, cUS)
 		c.check("nsx-equalizeGroups-head", req, true, func() string {
-			dev := conf(grp("Netspoc-g1", `"10.1.1.1"`), rule("r1", g+"Netspoc-g1"))
+			dev := conf(grp("Netspoc-g1", `"10.1.1.1"`), rule("d1", g+"Netspoc-g1"))
 			spoc := conf(spocGroups, rule("r1", g+"Netspoc-g1"))
 			if _, msg := nsx.VerifC20Diff([]byte(dev), []byte(spoc)); msg != "" {
 				return "ERR " + msg
@@ -1012,7 +1012,7 @@ func (c *corrCtx) runPanos(n int) {
 		var encD, xmlD []string
 		for i := 0; i < 1+r.Intn(2); i++ {
 			name := Pick(r, []string{"", "dev1", "dev1", "dev2"})
-			e := []string{name}
+			e := []string{"@" + name}
 			var xv []string
 			for j := 0; j < r.Intn(3); j++ {
 				vn := Pick(r, []string{"vsys1", "vsys2", "vsys1"})
